@@ -176,7 +176,9 @@ pub fn run_case(k: usize, events: &str, sink: &mut Sink, case: &str) {
                     None
                 };
                 Script {
-                    running: config_part(&render_running(&g.running)),
+                    // plus statements that are not managed (hand-written with the annotation, deactivated,
+                    // plain); the fake router applies the request's subtree filter
+                    running: fakejunos::with_unmanaged(&config_part(&render_running(&g.running))),
                     ephemeral: config_part(&render_get_config(&g.cfg)),
                     fault,
                 }
